@@ -25,7 +25,7 @@ from harness import c02
 sys.path.insert(0, os.path.join(VERIF, 'tools', 'gen'))
 
 PROP = 'C12'
-GENERATORS = ['gen_tables']
+GENERATORS = ['gen_tables', 'gen_versioned']
 TRUSTED = [
     'table extractor tools/gen/gen_tables.py: registries, class table and rename table are regenerated from the package on every run; '
     'its rule for "this package writes class C": C is concrete, defined under exactly that name, has a saver by the dispatch rules and is '
